@@ -653,7 +653,7 @@ PROPS = {
         level_text='Theorems (every state / input): each header-level violation of the property\'s list is rejected by readLoop before any data is handed out; top-bit lengths '
                    'and malformed Close payloads fail; header decode∘encode = id. C03_valid / C03_valid_compressed: for every VALID frame stream (any fragmentation, control frames anywhere, both roles, compressed messages with any inflater) and any read-buffer sizes the Reader model '
                    'delivers exactly the messages the specification assigns to the stream and answers its pings; C03_first_violation: after the first header-level violation nothing more is delivered or read and Close 1002 is written. Tie: model = library on every generated stream.',
-        level_note='stream-level theorems: C03_valid (valid uncompressed streams), C03_valid_compressed (valid streams with compressed messages, for EVERY inflater: the reader feeds it payload + tail with the RFC 7692 dictionary and delivers its output), C03_first_violation / _mid (valid prefix, then a header-level violation at a message boundary or inside a fragmented message, then anything: exactly the valid messages are delivered, the read fails, Close 1002 is written, nothing behind the header is read). Sequence violations (continuation without a message, new data frame inside a message) and corrupt DEFLATE data are step-level theorems + correspondence.',
+        level_note='stream-level theorems: C03_valid (valid uncompressed streams), C03_valid_compressed (valid streams with compressed messages, for EVERY inflater: the reader feeds it payload + tail with the RFC 7692 dictionary and delivers its output), C03_first_violation / _mid (valid prefix, then a header-level violation at a message boundary or inside a fragmented message, then anything: exactly the valid messages are delivered, the read fails, Close 1002 is written, nothing behind the header is read). C03_continuation_without_message / C03_data_frame_inside_message are the two sequence violations at stream level. Corrupt DEFLATE data: the reader hands out what the inflater produced and fails (the companion of C03_valid_compressed, reader_zstream_obs) + correspondence.',
         technique='Coq proof (case analysis over the header / control-frame paths) + differential run of the extracted Reader model vs the library over scripted raw peers',
     ),
     'C04': dict(
